@@ -112,15 +112,38 @@ class WakeSummaries:
         return self.memo[key]
 
 
+def _reaches(body, a, b):
+    if a.bb == b.bb and b.idx > a.idx:
+        return True
+    return any(b.bb in body.reachable(n) for n in body.succ(a.bb))
+
+
 def STALE_OK(body, it, field):
-    """is a state change that FOLLOWS the take of `field`'s waker still safe?  Yes when the guard through which the waker was taken is the
-    lock the change itself is made under (plain field store through the same guard): the waiter cannot run in between."""
+    """is a state change that FOLLOWS the take of `field`'s waker still safe?  Yes when it happens under the very lock guard through which the
+    waker was taken (the waiter checks and registers under that lock, so it cannot run in between): either the change is a plain store through
+    a guard of the same structure, or every take that reaches it went through a guard that is still alive (not dropped) at the change."""
     if isinstance(it, Stmt) and it.place.proj:
         from .prov import place_fields
         f, _, _ = place_fields(body, it.place)
         owner = field.rsplit(".", 1)[0]
-        return bool(f) and f[-1].rsplit(".", 1)[0] == owner
-    return False
+        if f and f[-1].rsplit(".", 1)[0] == owner:
+            return True
+    takes = [t for t in body.calls() if is_take_on(body, t, field) and _reaches(body, t, it)]
+    if not takes:
+        return False
+    for tk in takes:
+        src = trace(body, tk.args[0])
+        g = None
+        for st in src.steps:  # the provenance walk looks through lock()/write(): the guard is the destination of that step
+            if isinstance(st, Term) and st.kind == "call" and st.dest is not None and st.dest.is_local and "Guard" in (body.local_ty(st.dest.local) or ""):
+                g = st.dest.local
+        if g is None:
+            return False
+        for blk in body.blocks:
+            d = blk.term
+            if not blk.cleanup and d.kind == "drop" and d.j.get("pl", {}).get("l") == g and _reaches(body, tk, d) and _reaches(body, d, it):
+                return False
+    return True
 
 
 def _run(body, field, event, edge_event, init_owed, summaries):
